@@ -34,8 +34,8 @@ type Action struct {
 	// microseconds) for this long
 	RepeatFor time.Duration
 	// Stop, when set and returning true, ends the script before this action (and a RepeatFor stream in progress)
-	Stop func() bool
-	Reset bool          // TCP: reset the connection (SO_LINGER 0)
+	Stop  func() bool
+	Reset bool // TCP: reset the connection (SO_LINGER 0)
 }
 
 type UDP struct {
@@ -475,4 +475,88 @@ func Blackhole(ip [4]byte) (port uint16, closer func(), ok bool) {
 	}
 	closer()
 	return 0, nil, false
+}
+
+// SlowAccept is a Blackhole that opens up after a while: connection attempts made before `drainAfter` has passed are
+// silently dropped (the client's SYN is lost and retransmitted after about a second); then the accept queue is drained and
+// every connection that completes from then on is handed to handler. What a controller behind a congested link looks like:
+// the connect succeeds, late.
+func SlowAccept(ip [4]byte, drainAfter time.Duration, handler func(c net.Conn)) (port uint16, closer func(), ok bool) {
+	fd, err := syscall.Socket(syscall.AF_INET, syscall.SOCK_STREAM, 0)
+	if err != nil {
+		return 0, nil, false
+	}
+	if err := syscall.Bind(fd, &syscall.SockaddrInet4{Port: 0, Addr: ip}); err != nil {
+		syscall.Close(fd)
+		return 0, nil, false
+	}
+	if err := syscall.Listen(fd, 0); err != nil {
+		syscall.Close(fd)
+		return 0, nil, false
+	}
+	lsa, err := syscall.Getsockname(fd)
+	if err != nil {
+		syscall.Close(fd)
+		return 0, nil, false
+	}
+	port = uint16(lsa.(*syscall.SockaddrInet4).Port)
+	addr := fmt.Sprintf("%d.%d.%d.%d:%d", ip[0], ip[1], ip[2], ip[3], port)
+	var mu sync.Mutex
+	var conns []net.Conn
+	closed := false
+	closer = func() {
+		mu.Lock()
+		closed = true
+		for _, c := range conns {
+			c.Close()
+		}
+		mu.Unlock()
+		syscall.Shutdown(fd, syscall.SHUT_RDWR)
+		syscall.Close(fd)
+	}
+	stalled := false
+	for i := 0; i < 8; i++ {
+		c, err := net.DialTimeout("tcp4", addr, 150*time.Millisecond)
+		if err != nil {
+			var ne net.Error
+			if errors.As(err, &ne) && ne.Timeout() {
+				stalled = true
+				break
+			}
+			closer()
+			return 0, nil, false
+		}
+		mu.Lock()
+		conns = append(conns, c)
+		mu.Unlock()
+	}
+	if !stalled {
+		closer()
+		return 0, nil, false
+	}
+	go func() {
+		time.Sleep(drainAfter)
+		for {
+			nfd, _, err := syscall.Accept(fd)
+			if err != nil {
+				return
+			}
+			f := os.NewFile(uintptr(nfd), "slow-accept")
+			c, err := net.FileConn(f)
+			f.Close()
+			if err != nil {
+				continue
+			}
+			mu.Lock()
+			if closed {
+				mu.Unlock()
+				c.Close()
+				return
+			}
+			conns = append(conns, c)
+			mu.Unlock()
+			go handler(c) // the fillers come first and never send anything: the handler must cope with silent connections
+		}
+	}()
+	return port, closer, true
 }
